@@ -211,7 +211,8 @@ KnownRowRedirect(g, s, c, o) ==
     /\ DevBase(g, c, o) /\ o.clamped > 0
     /\ \E r \in 0..g.rows - 1 :
          LET cc == IF c.act = "write" THEN [c EXCEPT !.i = <<Max(0, c.i[1]), r>>] ELSE [c EXCEPT !.i[1] = r]
-         IN IF c.act = "progress" THEN o.cell = [s.cell EXCEPT ![r + 1] = ProgRow(g, c, DevWidth(g, c), DevFilled(g, c))]
+         IN IF c.act = "progress" THEN \E f \in FillSet(c.i[2], c.i[3], EffWidth(g, c)) :
+                                          o.cell = [s.cell EXCEPT ![r + 1] = ProgRow(g, c, EffWidth(g, c), f)]
             ELSE o.cell = ApplyText(g, s.cell, cc)
 (* progress with max_value <= 0 (host: empty bar) or width <= 0 (host: one cell): device takes max = 1 / the full row *)
 KnownProgressDegenerate(g, s, c, o) ==
